@@ -52,6 +52,12 @@ CLAIMED.update({
              "ReleaseJustified is evaluated on every step that frees an IP and NoLeakAtQuiescence after the quiescence suffix (all events delivered and handled, one resync pass) that ends every trace."),
  "C04": ipam("LiveKeepsIP and NoUnassignWhileLiveM are model-checked with incarnations, informer lag, duplicated/late release events, resync and API release; attack schedules for the guards unbindUid, bindStaleLister, resyncReread, "
              "apiDoubleCheck and the per-operation pod locks are replayed on the real code on every run; LiveKeepsIP / NoUnassignWhileLive are evaluated on every observed step."),
+ "C06": ipam("The filter/bind segments of GalaxyIPAM carry the topology (pool -> node subnets, node -> subnet); on topology scenarios (a pool routable from two node subnets, one from a single subnet, a node outside every pool; "
+             "operations one at a time) TLC checks RoutableM, FilterOffersM (holders are offered only nodes that route their IPs; a fresh default-policy pod exactly the nodes with a free routable IP) and FilterImpliesBindM "
+             "(after a successful filter with the informer caught up and nothing else happening, the fault-free bind on an offered node succeeds or refuses because an earlier same-named pod still holds the IP). "
+             "The driver draws random valid topologies (2-4 pools sharing a pod subnet with disjoint ranges or in a second pod subnet, node subnets shared by pools, a single-host /32 subnet, nodes in no subnet), "
+             "pairwise-disjoint requested ranges, template changes between incarnations and restarts, and runs scheduler cycles (filter, then bind, each alone) on the real plugin; the offered node set must equal the model's, and "
+             "Routable, IPInfoOfPool (vlan, mask, gateway of the IP's pool), FilterImpliesBind, HolderOfferedRoutableOnly and FreshOfferedExactly are evaluated by TLC on the recorded steps."),
  "C07": ipam("PoolCapM is model-checked on a sized pool shared by two deployments with concurrent filters, binds and unbinds; on real-code traces PoolCap bounds every growth of the pool's IP count by the size the acting operation read, "
              "with concurrent filters, pool create/update with pre-allocation, and the attack schedules for bindPoolSize and the deployment/pool lock."),
  "C10": ipam("The provider's view (ip -> node) is a model variable updated by AssignIP/UnAssignIP; CloudSingleNodeM, LiveAssignedToOwnNode, UnassignBeforeHandoverM are model-checked; on real-code traces with a recording, failable provider "
